@@ -84,11 +84,11 @@ func genC05(seed uint64, withSpec bool) *Scenario {
 		sc.Pool.Mode = rt.PoolLIFO
 	}
 	coeRun := r.Chance(300) // runs exercising the package-level option setter
-	deepPair := withSpec && r.Chance(450)
+	deepPair := withSpec && r.Chance(300)
 	nspecTasks := 2
 	if deepPair {
 		// several whole-spec validations of deeply nested documents in near lockstep: their walkers overlap
-		nspecTasks = r.Range(3, 4)
+		nspecTasks = 3
 		if ntasks < nspecTasks+1 {
 			ntasks = nspecTasks + 1
 		}
@@ -136,10 +136,11 @@ func genC05(seed uint64, withSpec bool) *Scenario {
 					deepDocsPM = 1000
 				}
 				op = specOp(r)
-				if deepPair && strings.HasPrefix(op.Doc, "@fx:") {
-					op = specOp(r) // (a fixture was drawn: once more)
-				}
 				deepDocsPM = 30
+				if deepPair {
+					t := true
+					op = Op{Kind: KSpec, Doc: js(GenDeepSpec(r)), COE: &t, OrderSeed: orderSeedFor(r)}
+				}
 				op.FromFile = false
 				op.SharedMeta = false // a schema object shared between goroutines must not contain unexpanded $ref (outside C05)
 				if op.Kind == KSpecOne && coeRun {
@@ -250,6 +251,7 @@ func runC05(sc *Scenario, keepLog bool) *RunReport {
 			Detail: "all unfinished tasks are blocked on a mutex of package validate: some call never returns"})
 	}
 	raceViolations("C05", cr, rep)
+	rep.probe("hb-token-table-overflow (objects sharing the fallback token: races may be missed)", int(cr.TokOverflow))
 	var kinds []string
 	var hist []porcupine.Operation
 	for ti := range sc.Tasks {
